@@ -88,7 +88,9 @@ class Flow:
             labels = {ANY}
         for s in states:
             for l in labels:
-                out.raises.add((self.on_raise(s, node, l), getattr(node, "lineno", 0), l))
+                rs = self.on_raise(s, node, l)
+                for r1 in (rs if isinstance(rs, list) else [rs]):
+                    out.raises.add((r1, getattr(node, "lineno", 0), l))
 
     def _block(self, stmts, states):
         out = _Out()
@@ -320,16 +322,19 @@ def none_test(test):
     return None
 
 
-def paths_events(fn_node, event_of, handler_of=None, cap=8, may_raise=None):
-    """Set of event sequences over all paths to a normal exit (return / fall
-    off).  ``event_of(node)`` maps an AST node (Call ...) to an event name or
-    None.  ``handler_of``: {handler class name: event} — when a statement
-    containing event E raises into a handler of that class, the sequence gets
-    the marker ``E!Class`` instead of E.  Nullness of simple local names that
-    are compared with None is tracked so that correlated `if x is not None`
-    tests do not produce infeasible paths."""
-    handler_of = handler_of or {}
+def event_paths(fn_node, event_of, branch_event=None, cap=10, may_raise=None, body=None, raising_events=None):
+    """Event sequences over all paths.  Returns (normal, raised): sets of tuples.
 
+    * ``event_of(node)`` maps an AST node to an event name or None (nodes are
+      visited in evaluation order inside each simple statement / condition).
+    * an event whose statement raises into a handler is recorded as ``ev!``
+      followed by ``H:<handler classes>``.
+    * ``branch_event(test, truth)`` may return an event recorded when a branch
+      is taken.
+    * nullness of simple names compared with None is tracked (correlated tests).
+    * ``raised``: sequences of paths leaving through an exception, each ending
+      in ``raise:<label>`` (label = class name, ``reraise`` or ``*``).
+    """
     def events_in(node):
         evs = []
         for n in _postorder(node):
@@ -347,51 +352,89 @@ def paths_events(fn_node, event_of, handler_of=None, cap=8, may_raise=None):
             return nulls
         return frozenset((v, k) for v, k in nulls if v not in killed)
 
+    def clean(seq):
+        return [e for e in seq if not e.startswith("?")]
+
     def transfer(state, node, kind):
         seq0, nulls = state
         if kind == "def":
             return [state]
         if kind == "handler":
-            names = handler_names(node)
             seq = list(seq0)
-            if seq and seq[-1].startswith("?"):
-                pending = seq.pop()[1:]
-                hit = [n for n in names if handler_of.get(n) == pending]
-                if hit:
-                    seq.append("%s!%s" % (pending, hit[0]))
-                else:
-                    seq.append(pending)
+            pend = [e[1:] + "!" for e in seq if e.startswith("?")]
+            seq = clean(seq) + pend + ["H:" + "|".join(handler_names(node))]
             return [(tuple(seq[:cap]), nulls)]
-        seq = [e for e in seq0 if not e.startswith("?")]
+        seq = clean(seq0)
         evs = events_in(node)
         return [(tuple((seq + evs)[:cap]), kill(nulls, node))]
 
     def on_raise(state, node, label):
         seq0, nulls = state
         evs = events_in(node)
-        seq = [e for e in seq0 if not e.startswith("?")]
+        seq = clean(seq0)
+        # any event of the raising statement may be the raiser: earlier ones completed
         if evs:
-            return (tuple((seq + ["?" + evs[-1]])[:cap]), nulls)
+            ks = [k for k in range(len(evs)) if raising_events is None or evs[k] in raising_events]
+            if ks:
+                return [(tuple((seq + evs[:k] + ["?" + evs[k]])[:cap]), nulls) for k in ks]
+            return (tuple(seq + evs[:0]), nulls)
         return (tuple(seq), nulls)
 
     def refine(state, test, truth):
         seq, nulls = state
         nt = none_test(test)
-        if nt is None:
-            return state
-        var, means_notnone = nt
-        val = "notnone" if (means_notnone == truth) else "none"
-        d = dict(nulls)
-        if var in d and d[var] != val:
-            return None
-        d[var] = val
-        return (seq, frozenset(d.items()))
+        if nt is not None:
+            var, means_notnone = nt
+            val = "notnone" if (means_notnone == truth) else "none"
+            d = dict(nulls)
+            if var in d and d[var] != val:
+                return None
+            d[var] = val
+            nulls = frozenset(d.items())
+        if branch_event is not None:
+            ev = branch_event(test, truth)
+            if ev:
+                seq = tuple((clean(seq) + [ev])[:cap])
+        return (seq, nulls)
 
     fl = Flow(transfer, may_raise=may_raise or calls_only_may_raise, on_raise=on_raise, refine=refine)
-    res = fl.run(fn_node, {((), frozenset())})
-    out = set()
+    if body is not None:
+        wrapper = ast.FunctionDef(name="_", args=None, body=body, decorator_list=[], lineno=getattr(body[0], "lineno", 0), col_offset=0)
+        res = fl.run(wrapper, {((), frozenset())})
+    else:
+        res = fl.run(fn_node, {((), frozenset())})
+    normal, raised = set(), set()
     for s, _n in res.all_normal_exits():
-        out.add(tuple(e for e in s if not e.startswith("?")))
+        normal.add(tuple(clean(s)))
+    for (s, _n), line, label in res.raises:
+        pend = [e[1:] + "!" for e in s if e.startswith("?")]
+        raised.add(tuple(clean(s) + pend + ["raise:%s" % label]))
+    return normal, raised
+
+
+def paths_events(fn_node, event_of, handler_of=None, cap=8, may_raise=None):
+    """Backward compatible view of event_paths: normal-exit sequences where an
+    event that raised into a handler of a class listed in ``handler_of`` is
+    shown as ``ev!Class`` and handler markers are dropped."""
+    handler_of = handler_of or {}
+    normal, _ = event_paths(fn_node, event_of, cap=cap + 4, may_raise=may_raise)
+    out = set()
+    for seq in normal:
+        res = []
+        i = 0
+        seq = list(seq)
+        while i < len(seq):
+            e = seq[i]
+            if e.endswith("!") and i + 1 < len(seq) and seq[i + 1].startswith("H:"):
+                names = seq[i + 1][2:].split("|")
+                hit = [n for n in names if handler_of.get(n) == e[:-1]]
+                res.append("%s!%s" % (e[:-1], hit[0]) if hit else e[:-1])
+                i += 2
+                continue
+            if not e.startswith("H:"):
+                res.append(e)
+            i += 1
+        out.add(tuple(res[:cap]))
     return out
 
 
